@@ -142,6 +142,25 @@ def random_texture_average(rng, n):
     return T10.to_voigt(out), kind
 
 
+def evolved_texture_average(rng, n):
+    """Voigt average of an olivine texture evolved by the real solver (simple/pure shear, strain ~0.4-1)"""
+    from pydrex import minerals as M
+    from pydrex.minerals import StiffnessTensors
+
+    A0, f0 = impl.initial_texture("random", rng, n)
+    fabric = impl.OLIVINE_FABRICS[int(rng.integers(0, len(impl.OLIVINE_FABRICS)))]
+    m = M.Mineral(phase=impl._core.MineralPhase.olivine, fabric=fabric, regime=impl._core.DeformationRegime.matrix_dislocation,
+                  n_grains=n, fractions_init=f0.copy(), orientations_init=A0.copy())
+    L = impl.make_L(["simple_shear", "pure_shear", "general"][int(rng.integers(0, 3))], rng)
+    params = impl.default_params(number_of_grains=n, gbs_threshold=float(rng.choice([0.0, 0.3])))
+    t1 = float(rng.uniform(0.2, 0.5))
+    m.update_orientations(params, np.eye(3), lambda t, x: L, (0.0, t1, lambda t: np.zeros(3)))
+    A, f = np.asarray(m.orientations[-1]), np.asarray(m.fractions[-1])
+    R = A.transpose(0, 2, 1)
+    Tn = np.einsum("g,gia,gjb,gkc,gld,abcd->ijkl", f, R, R, R, R, T10.to_tensor(StiffnessTensors().olivine))
+    return T10.to_voigt(Tn), f"evolved:{fabric.name}"
+
+
 def special(kind, rng):
     from pydrex.minerals import StiffnessTensors
 
@@ -327,13 +346,17 @@ def run(ctx, res):
                         "axis": out0["hexagonal_axis"].tolist()})
     # ---- Voigt averages of textures, two frames
     n_tex = 10 if not thorough else 120
-    for k in range(n_tex):
-        M0, kind = random_texture_average(rng, int(rng.integers(3, 40)))
+    n_evo = 2 if not thorough else 16
+    for k in range(n_tex + n_evo):
+        if k < n_tex:
+            M0, kind = random_texture_average(rng, int(rng.integers(3, 40)))
+        else:
+            M0, kind = evolved_texture_average(rng, int(rng.integers(20, 60)))
         out0, calls0, idx0 = submit(M0, f"texture:{kind}/frame0")
         Q = T11.random_rotation(rng)
         Mq = rotate6(M0, Q)
         out_q, calls_q, idx_q = submit(Mq, f"texture:{kind}/rotated")
-        res.count("input:texture:" + kind)
+        res.count("input:texture:" + kind.split(":")[0])
         res.nontrivial(("tex", M0.tobytes()))
         cond = conditioned(M0, calls0) and conditioned(Mq, calls_q)
         pending_frames.append((f"texture/{kind}", M0, Q, out0, out_q, idx0, idx_q, None, cond))
